@@ -156,7 +156,7 @@ func TestC11(t *testing.T) {
 	defer r.Finish()
 	r.Extra("rule", fmt.Sprintf("token sequences over an alphabet of %d fragments (keywords, operators, well- and ill-formed literals, indentation, control bytes, non-ASCII): exhaustive for length <=2 "+
 		"(thorough: a strided third of length 3) joined with and without spaces, rapid-drawn sequences of length 3-14; byte/token mutations (delete, duplicate, swap, truncate, insert hostile fragment) "+
-		"of the repository's .py files; size class (deep nesting, >64KiB functions); each in exec, eval and single mode. Oracle: Compile returns a code object, or an exception of the SyntaxError "+
+		"of the repository's .py files; structured programs from the scope-structure generator (nested functions/classes/lambdas/comprehensions with coinciding names, global/nonlocal, legal and illegal) and the statement generator, intact or with one hostile fragment inserted; size class (deep nesting, >64KiB functions); each in exec, eval and single mode. Oracle: Compile returns a code object, or an exception of the SyntaxError "+
 		"family carrying filename, lineno and offset, within a watchdog (5 s, retried once with 60 s). Non-trivial: rejected, or accepted with >=3 tokens; distinct by (mode, text).", len(c11Alphabet)))
 	r.Extra("assumptions", []string{"a hang is believed only after the 60 s retry"})
 	r.ReplayKnown()
@@ -233,6 +233,29 @@ func TestC11(t *testing.T) {
 				}
 			}
 			src = text
+		} else if g.Chance(1, 3) {
+			// structured programs: the scope-structure generator (C03) or the statement generator (C06), intact or with one hostile fragment inserted
+			if g.Bool() {
+				class = "structured-scopes"
+				c := &c03Gen{g: g, r: r, kinds: map[string]bool{}, budget: 30}
+				c.illegal = g.Chance(1, 3)
+				msc := &c03Scope{kind: "module", depth: 1, fnBound: map[string]bool{}, declared: map[string]string{}}
+				src = c.body(msc)
+			} else {
+				class = "structured-statements"
+				c := &c06Gen{g: g, r: r, kinds: map[string]bool{}, nperturb: map[string]bool{}, budget: 40}
+				var toks []string
+				for i, n := 0, g.Int(1, 3); i < n; i++ {
+					st, _ := c.stmtLine(3)
+					toks = append(toks, st...)
+				}
+				src = c.render(toks, true)
+			}
+			if g.Chance(1, 3) && len(src) > 2 {
+				p := g.N(len(src))
+				src = src[:p] + " " + c11Alphabet[g.N(len(c11Alphabet))] + " " + src[p:]
+				class += "-mutated"
+			}
 		} else {
 			class = "random-seq"
 			n := g.Int(3, 14)
